@@ -416,6 +416,11 @@ func removeFromCollection(col ItemCollection, items ...Item) ItemCollection {
 		return col
 	}
 	for _, ob := range col {
+		if ob == nil {
+			// NOTE(marius): nil entries are left alone
+			result = append(result, ob)
+			continue
+		}
 		found := false
 		for _, it := range items {
 			if ob.GetID().Equals(it.GetID(), false) {
